@@ -212,6 +212,16 @@ func flip(b []byte, i int, mask byte) []byte {
 	return c
 }
 
+func shortInt(v, honest *big.Int) string {
+	if v.Cmp(honest) == 0 {
+		return "honest"
+	}
+	if v.Cmp(nMinus1) == 0 {
+		return "n-1"
+	}
+	return v.String()
+}
+
 func genECDSA(e *env, ki, mi int, emit func(tcase)) {
 	key, msg := e.keys[ki], e.msgs[mi]
 	other := e.keys[(ki+1)%len(e.keys)]
@@ -258,6 +268,15 @@ func genECDSA(e *env, ki, mi int, emit func(tcase)) {
 		eInt := ref.HashToInt(msg.B)
 		forged := ref.MulG(new(big.Int).Mul(eInt, new(big.Int).ModInverse(s, ref.N)))
 		mk("key=identity, R=s^-1 e G", ref.Infinity, forged, s, msg.B)
+
+		// the digest for which e*G + r*Q is the point at infinity (e = -r*d mod n): s^-1 * infinity is the
+		// identity, which is not R, whatever s is - a point comparison that treats the identity as equal to
+		// anything (projective cross-multiplication with Z = 0) would accept every s
+		rInt := modN(R.X)
+		eDeg := modN(new(big.Int).Neg(new(big.Int).Mul(rInt, key.D)))
+		for _, sv := range []*big.Int{s, big.NewInt(1), big.NewInt(2), nMinus1} {
+			mk(fmt.Sprintf("hash=-r*d (sum is infinity), s=%s", shortInt(sv, s)), key.Q, R, sv, b32(eDeg))
+		}
 
 		// Ethereum export of both valid forms (one of them has s > n/2)
 		emit(tcase{Kind: "sigeth", Pert: "lattice signature", ID: "sigeth|" + id + "|valid", Q: encPt(key.Q), R: encPt(R), S: hx(b32(s)), Hash: hx(msg.B)})
